@@ -48,4 +48,8 @@ CHECKS.update({
  'C08': _c('Complete grids of BubblePoint/DewPoint calls over chemical lists (all subsets of two homologous families and every permutation of water/ethanol/methanol), ideal / Dortmund / Dortmund+Poynting packages, simplex-grid compositions incl. zero and trace components, scale factors, T and P grids, plus call histories on the interned solver objects; residual of the defining equation re-evaluated independently, round trips, bracketing, single-component limits, scale and permutation invariance.', 'DESIGN.md section 3, C08'),
  'C16': _c('Complete enumeration of model class x chemical set (with and without group-less members) x every permutation x simplex-grid compositions incl. vertices and traces x temperatures; vertex normalisation, Gibbs-Duhem by central differences along every edge, permutation invariance, exact ones for group-less chemicals and ideal models, bit-identical caller arrays, obj(x,T) == obj.f(x,T,*obj.args); histories of consecutive calls on the interned objects to closure (scratch-buffer leakage).', 'DESIGN.md section 3, C16'),
 })
+
+CHECKS.update({
+ 'C09': _c('Depth-1 layers enumerate every operator (binary, reflected, in-place, comparisons, logical, unary, reductions with axis/keepdims, conversions, construction, every get/set index form x value form, read-only targets) over every operand kind pairing and all vectors of size 1-3 / arrays up to 2x2 (thorough 2x3) over a 4-value alphabet; history layers run explicit-state search over in-place operations and item assignments on a heap of sparse objects inside a value lattice - to CLOSURE for a size-2 vector (all histories of any length), depth-bounded for the 4-5 object heaps incl. a row view aliasing the array. Oracle: NumPy on the dense images; representation invariant in every state.', 'DESIGN.md section 3, C09 and 3b'),
+})
 NOT_APPLICABLE = {k: v for k, v in NOT_APPLICABLE.items() if k not in CHECKS}
